@@ -1,0 +1,50 @@
+//go:build verif
+// +build verif
+
+// Verification hooks. Compiled only with `-tags verif`; add-only.
+// They let an external harness supply the pager a Database reads from, so
+// images can be served from memory (with the file pager's copy semantics),
+// page reads can be counted, traced, failed or corrupted.
+
+package db
+
+// VerifPager is the exported twin of the private pager interface.
+type VerifPager interface {
+	Page(n int, pagesize int) ([]byte, error)
+	Close() error
+	RLock() error
+	RUnlock() error
+	CheckReservedLock() (bool, error)
+}
+
+type verifAdapter struct{ p VerifPager }
+
+func (a verifAdapter) page(n int, pagesize int) ([]byte, error) { return a.p.Page(n, pagesize) }
+func (a verifAdapter) Close() error                             { return a.p.Close() }
+func (a verifAdapter) RLock() error                             { return a.p.RLock() }
+func (a verifAdapter) RUnlock() error                           { return a.p.RUnlock() }
+func (a verifAdapter) CheckReservedLock() (bool, error)         { return a.p.CheckReservedLock() }
+
+// VerifOpen opens a Database on a caller supplied pager. journal is the name
+// of the journal file to look for ("" for none).
+func VerifOpen(p VerifPager, journal string) (*Database, error) {
+	return newDatabase(verifAdapter{p}, journal)
+}
+
+type verifPrivate struct{ p pager }
+
+func (a verifPrivate) Page(n int, pagesize int) ([]byte, error) { return a.p.page(n, pagesize) }
+func (a verifPrivate) Close() error                             { return a.p.Close() }
+func (a verifPrivate) RLock() error                             { return a.p.RLock() }
+func (a verifPrivate) RUnlock() error                           { return a.p.RUnlock() }
+func (a verifPrivate) CheckReservedLock() (bool, error)         { return a.p.CheckReservedLock() }
+
+// VerifFilePager exposes the real file pager of this platform, so it can be
+// wrapped.
+func VerifFilePager(file string) (VerifPager, error) {
+	p, err := newFilePager(file)
+	if err != nil {
+		return nil, err
+	}
+	return verifPrivate{p}, nil
+}
